@@ -930,8 +930,8 @@ def plan(tier):
         for n in (1, 2, 3):
             out.append(("full", n, programs("full", n, (1, 2)), "simple", small))
             out.append(("full", n, programs("full", n, (1, 2)), "two-turn-set", small))
-        out.append(("full", 4, programs("full", 4, (1, 2)), "simple", small))
         out.append(("nest", 5, programs("nest", 5, ()), "simple", small))
+        out.append(("full", 4, programs("full", 4, (1, 2)), "simple", small))
     else:
         for n in (1, 2, 3):
             out.append(("full", n, programs("full", n, (1, 2)), "simple", big))
@@ -958,7 +958,7 @@ def run(rep, tier):
         bounds[key] = bnd
         for main, sub in progs:
             ts.append((len(ts), main, sub, f2, dict(bnd, max_depth=60, seed=seed, grammar=key)))
-    budget = 45 if tier == "quick" else 17 * 60
+    budget = 50 if tier == "quick" else 17 * 60
     deadline = time.time() + budget
     done = {}
     by_sig = {}
